@@ -12,6 +12,16 @@ import LcdbModel.Model.Lsm
 import LcdbModel.Model.DbIter
 open Lcdb Drv
 
+structure BatchRec where
+  seq0 : Nat
+  count : Nat
+  log : Nat
+  sync : Bool
+  jBegin : Nat
+  jAck : Nat
+  entries : List Entry
+  deriving Repr
+
 structure TS where
   cmp : Cmp := .bytewise
   st : DbState := { mem := [], imm := none, levels := List.replicate 7 [], lastSeq := 0, snaps := [], nextFile := 0 }
@@ -36,6 +46,15 @@ structure TS where
   maxFiles : Nat := 0
   levelsUsed : Nat := 0
   iter : Option (Nat × DbIterState) := none   -- current user iterator: (sequence, state)
+  lastW : List WOp := []
+  lastBegin : Nat := 0
+  batches : List BatchRec := []               -- every batch whose write began, in order
+  logUnlinks : List (Nat × Nat) := []         -- (journal index, log number)
+  lastCrash : Option (Nat × Nat × Run) := none
+  nCrash : Nat := 0
+  nCrash2 : Nat := 0
+  nCrashNontrivial : Nat := 0
+  nJ : Nat := 0
 
 def TS.problem (t : TS) (kind : String) (msg : String) : TS :=
   { t with problems := t.problems ++ [s!"{kind} line={t.lineNo} {msg}"] }
@@ -196,6 +215,53 @@ def handleLs (t : TS) (names : String) : TS :=
   let t := if manifests.length == 1 then t else t.problem "VIOLATION[files]" s!"expected exactly one MANIFEST, found {manifests}"
   if ns.any (fun n => n.endsWith ".dbtmp") then t.problem "VIOLATION[files]" "temporary file left behind" else t
 
+def lastView (c : Cmp) (es : List Entry) (k : Bytes) : Option String := view c es k (2 ^ 62)
+
+/-- oracle for one reopened crash image (C02/C03/C05): see DESIGN.md section 7 -/
+def crashCheck (t : TS) (n v : Nat) (rc : String) (recLog : Int) (run : Run) : TS :=
+  let t := { t with nCrash := t.nCrash + 1 }
+  if rc != "rc=0" then t.problem "VIOLATION[crashopen]" s!"reopening crash image n={n} variant={v} failed: {rc}" else
+  let begun := t.batches.filter (fun b => b.jBegin < n)
+  let acked := begun.filter (fun b => b.jAck < n)
+  let unlinked := (t.logUnlinks.filter (fun p => p.1 < n)).map (·.2)
+  let required := if v == 0 then acked else acked.filter (fun b => b.sync || unlinked.contains b.log)
+  let hEntries := begun.flatMap (·.entries)
+  -- (2) nothing invented
+  let invented := run.filter (fun e => !hEntries.contains e)
+  let t := if invented.isEmpty then t else t.problem "VIOLATION[crashinvented]" s!"crash image n={n} variant={v}: recovered entries that were never written: [{showRunBrief invented}]"
+  -- per log: the last batch that left a trace in the recovered database
+  let pOf := fun (l : Nat) => (begun.filter (fun b => b.log == l && b.entries.any (fun e => run.contains e))).foldl (fun m b => max m b.seq0) 0
+  let inS := fun (b : BatchRec) => decide ((b.log : Int) < recLog) || b.seq0 ≤ pOf b.log
+  let sEntries := (begun.filter inS).flatMap (·.entries)
+  -- (4) everything required survived
+  let lost := required.filter (fun b => !inS b)
+  let t := if lost.isEmpty then t
+           else t.problem (if v == 0 then "VIOLATION[crashkill]" else "VIOLATION[crashsync]") s!"crash image n={n} variant={v}: acknowledged batches missing after recovery (first sequence numbers {lost.map (·.seq0)}, recovered log number {recLog})"
+  -- (3) the recovered contents are those of a per-log prefix of what was written
+  let keys := userKeys t.cmp hEntries
+  let bad := keys.filter (fun k => lastView t.cmp run k != lastView t.cmp sEntries k)
+  let t := if bad.isEmpty then t
+           else t.problem "VIOLATION[crashview]" s!"crash image n={n} variant={v}: for key {hexOfBytes (bad.headD [])} the recovered database answers {lastView t.cmp run (bad.headD [])} but the surviving writes dictate {lastView t.cmp sEntries (bad.headD [])}"
+  { t with lastCrash := some (n, v, run), nCrashNontrivial := t.nCrashNontrivial + (if run.isEmpty then 0 else 1) }
+
+def followKey (k : Nat) : Bytes := ("zz-follow-" ++ toString k).toUTF8.toList
+
+def crash2Check (t : TS) (n v : Nat) (rc wrc : String) (seq0 : Nat) (run : Run) : TS :=
+  let t := { t with nCrash2 := t.nCrash2 + 1 }
+  if rc != "rc=0" then t.problem "VIOLATION[crashopen]" s!"second reopen after follow-up writes on crash image n={n} variant={v} failed: {rc}" else
+  if wrc != "wrc=0" then t.problem "VIOLATION[crashfollow]" s!"a write after recovering crash image n={n} variant={v} failed: {wrc}" else
+  match t.lastCrash with
+  | some (n', v', r1) =>
+    if n' != n || v' != v then t.problem "MISMATCH[other]" "crash2 without matching crash" else
+    let maxOld := r1.foldl (fun m e => max m e.seq) 0
+    let t := if seq0 > maxOld then t else t.problem "VIOLATION[crashfollow]" s!"after recovering crash image n={n} variant={v} new writes got sequence {seq0}, not above the recovered maximum {maxOld}"
+    let badFollow := (List.range 3).filter fun k => lastView t.cmp run (followKey k) != some s!"{hexOfBytes (s!"f{n}-{v}-{k}").toUTF8.toList}"
+    let t := if badFollow.isEmpty then t else t.problem "VIOLATION[crashfollow]" s!"crash image n={n} variant={v}: follow-up writes {badFollow} made after recovery are not there after the next reopen"
+    let keys := userKeys t.cmp r1
+    let bad := keys.filter (fun k => !(k.take 10 == "zz-follow-".toUTF8.toList) && lastView t.cmp run k != lastView t.cmp r1 k)
+    if bad.isEmpty then t else t.problem "VIOLATION[crashfollow]" s!"crash image n={n} variant={v}: key {hexOfBytes (bad.headD [])} changed across the second reopen"
+  | none => t.problem "MISMATCH[other]" "crash2 without crash"
+
 def parseIterOp (op : String) : Option IterOp :=
   match op.splitOn ":" with
   | ["F"] => some .first
@@ -226,7 +292,7 @@ def handleLine (t : TS) (line : String) : TS :=
       let base := t.st.lastSeq
       let hist := os.zipIdx.map fun (o, i) => ({ ukey := o.ukey, seq := base + 1 + i, kind := o.kind, val := o.val } : Entry)
       let t := t.doStep (.write os) "write"
-      { t with history := t.history ++ hist, nWrites := t.nWrites + 1 }
+      { t with history := t.history ++ hist, nWrites := t.nWrites + 1, lastW := os }
     | none => t.problem "MISMATCH[other]" "unparsable write"
   | ["werr", rc] => t.problem "MISMATCH[other]" s!"write failed rc={rc}"
   | ["file", num, size, entries] =>
@@ -289,6 +355,30 @@ def handleLine (t : TS) (line : String) : TS :=
         let t := if status == "0" then t else t.problem "VIOLATION[iter]" s!"iterator status {status} after {op}"
         if got == exp then t else t.problem (if s < t.st.lastSeq then "VIOLATION[snapiter]" else "VIOLATION[iter]") s!"iterator at sequence {s} after {op}: implementation ({got}), a sorted map of the visible entries dictates ({exp})"
     | none => t.problem "MISMATCH[other]" "unparsable it line"
+  | "j" :: idx :: "mark" :: "wbegin" :: _ => { t with lastBegin := idx.toNat?.getD 0, nJ := t.nJ + 1 }
+  | ["j", idx, "mark", "wack", seq0, cnt, log, sync] =>
+    match idx.toNat?, seq0.toNat?, cnt.toNat?, log.toNat? with
+    | some i, some s0, some c, some l =>
+      let es := t.lastW.zipIdx.map fun (o, k) => ({ ukey := o.ukey, seq := s0 + k, kind := o.kind, val := o.val } : Entry)
+      let t := if s0 + c == t.st.lastSeq + 1 && c == t.lastW.length then t
+               else t.problem "MISMATCH[other]" s!"wack {s0}+{c} does not match the model's last sequence {t.st.lastSeq}"
+      { t with batches := t.batches ++ [{ seq0 := s0, count := c, log := l, sync := sync == "1", jBegin := t.lastBegin, jAck := i, entries := es }], nJ := t.nJ + 1 }
+    | _, _, _, _ => t.problem "MISMATCH[other]" "unparsable wack"
+  | ["j", idx, "unlink", name] =>
+    match idx.toNat?, isLog name with
+    | some i, some l => { t with logUnlinks := t.logUnlinks ++ [(i, l)], nJ := t.nJ + 1 }
+    | _, _ => { t with nJ := t.nJ + 1 }
+  | "j" :: _ => { t with nJ := t.nJ + 1 }
+  | ["crash", n, v, rc] => let _ := (n, v); { (t.problem "VIOLATION[crashopen]" s!"reopening crash image n={n} variant={v} failed: {rc}") with nCrash := t.nCrash + 1 }
+  | ["crash", n, v, rc, reclog, _lastseq, entries] =>
+    match n.toNat?, v.toNat?, (reclog.drop 7).toString.toInt?, parseEntries entries with
+    | some n, some v, some rl, some run => crashCheck t n v rc rl run
+    | _, _, _, _ => t.problem "MISMATCH[other]" s!"unparsable crash line {n} {v}"
+  | ["crash2", n, v, rc, wrc, seq0, _lastseq, entries] =>
+    match n.toNat?, v.toNat?, (seq0.drop 5).toString.toNat?, parseEntries entries with
+    | some n, some v, some s0, some run => crash2Check t n v rc wrc s0 run
+    | _, _, _, _ => t.problem "MISMATCH[other]" s!"unparsable crash2 line {n} {v}"
+  | "crash2" :: n :: v :: rc :: _ => { (t.problem "VIOLATION[crashopen]" s!"second reopen after follow-up writes on crash image n={n} variant={v} failed: {rc}") with nCrash2 := t.nCrash2 + 1 }
   | "err" :: rest => t.problem "MISMATCH[other]" ("harness error: " ++ " ".intercalate rest)
   | [""] => t
   | _ => t.problem "MISMATCH[other]" s!"unknown transcript line: {line.take 80}"
@@ -303,4 +393,4 @@ def main : IO Unit := do
   let t ← loop stdin {}
   for p in t.problems.take 40 do
     IO.println p
-  IO.println s!"done lines={t.lineNo} writes={t.nWrites} gets={t.nGets} iterops={t.nIter} flushes={t.nFlush} compactions={t.nCompact} trivialmoves={t.nTrivial} recoveries={t.nRecover} invchecks={t.nInv} vers={t.nVer} ls={t.nLs} maxfiles={t.maxFiles} levelsused={t.levelsUsed} problems={t.problems.length}"
+  IO.println s!"done lines={t.lineNo} writes={t.nWrites} gets={t.nGets} iterops={t.nIter} flushes={t.nFlush} compactions={t.nCompact} trivialmoves={t.nTrivial} recoveries={t.nRecover} invchecks={t.nInv} vers={t.nVer} ls={t.nLs} crashes={t.nCrash} crashes2={t.nCrash2} crashnonempty={t.nCrashNontrivial} jevents={t.nJ} maxfiles={t.maxFiles} levelsused={t.levelsUsed} problems={t.problems.length}"
